@@ -33,7 +33,7 @@ def isSpecial (d : DatasetIds) (v : Nat) : Bool :=
 
 def metricAgrees (d : DatasetIds) (m : MetricIds) : Bool :=
   m.masked.contains d.pad
-  && m.masked.all (fun v => v == d.pad || v == d.eos)
+  && m.masked.all (isSpecial d)
   && (match m.logitsMask with
       | none => true
       | some (w, s) => w == d.vocab && s.all (isSpecial d))
